@@ -647,7 +647,18 @@ def gen_mem_sites(srcs):
         for m in re.finditer(r'\blet\s+(?:mut\s+)?([A-Za-z_][A-Za-z0-9_]*)\s*(?::[^=;]*)?=\s*([^;]*);', body):
             if m.group(1) in idents:
                 lets.append('let %s = %s' % (m.group(1), norm_ws(m.group(2))))
-        items.append((key, fn, lets + sites))
+        # the names of the function's own `let` bindings are not part of what is pinned: rename them, in binding order, to
+        # %1, %2, ... everywhere they occur as a variable (not as a method or field name, not as a call)
+        names = []
+        for l in lets:
+            nm = l.split()[1]
+            if nm not in names:
+                names.append(nm)
+        entry = lets + sites
+        for k, nm in enumerate(names):
+            pat = re.compile(r'(?<![\w])(?<!(?<!\.)\.)' + re.escape(nm) + r'(?![\w])(?!\s*\()')
+            entry = [pat.sub('%%%d' % (k + 1), t) for t in entry]
+        items.append((key, fn, entry))
     esc = lambda t: t.replace('"', '""')
     out = ["(* ---- memory-moving call sites of the hand-modelled functions, with arguments and the bindings they use ---- *)",
            "Definition mem_sites : list (string * string * list string) :=",
